@@ -1,4 +1,4 @@
-\* quick: in-memory map, asynchronous writer, refill unit = 2 blocks, capacity 0 (every write -> forceRecycle sweep), no external eviction
+\* quick: in-memory map, asynchronous writer, refill unit = 2 blocks, capacity 0 (every write -> forceRecycle sweep) + 1 external eviction, 3 ranges
 SPECIFICATION Spec
 CONSTANTS
   NF = 1
@@ -10,7 +10,7 @@ CONSTANTS
   r2 = r2
   ReadSet <- RS_q3
   NReads = 1
-  MaxEv = 0
+  MaxEv = 1
   Async = TRUE
   MaxRefilling = 1
   Faults = 0
